@@ -24,3 +24,18 @@ Theorem c19_protection_only_inserts_markers :
   forall s, unprotect (protect s) s = s.
 Proof. exact unprotect_protect. Qed.
 Print Assumptions c19_protection_only_inserts_markers.
+
+(* BEGIN PINS (tools/repin.py) *)
+From WTP Require Import Gen.GenPins.
+Module Pins.
+Import String.
+(* The models of this property were transcribed from: node_expand.py:to_wikitext, node_expand.py:to_attrs.
+   Gen/GenPins.v holds the digests of these functions in the current source (translate/pins.py: syntax tree without
+   docstrings, comments and layout).  A different digest means that the model is no longer known to describe the
+   code; the check then reports the broken tie and looks for a failing input. *)
+Theorem c19_models_describe_the_current_source :
+  (pin_to_wikitext, pin_to_attrs) = ("4b5684c489600fcf", "0b0a6f06c00ccd8c")%string.
+Proof. reflexivity. Qed.
+Print Assumptions c19_models_describe_the_current_source.
+End Pins.
+(* END PINS *)
